@@ -66,7 +66,7 @@ CONF = {
     ],
     "gen": [
         {"module": "Gen_MigrationJob", "cfg": {"quick": "Gen_quick.cfg", "thorough": "Gen_thorough.cfg"}, "timeout": 1200,
-         "sample": {"quick": 6, "thorough": 3}},
+         "sample": {"quick": 6, "thorough": 5}},
         {"module": "Gen_MigrationJob", "cfg": "Gen_sim.cfg", "simulate": {"quick": "num=300", "thorough": "num=4000"},
          "depth": 15, "timeout": 600},
     ],
